@@ -458,7 +458,21 @@ class FnAnalysis:
                 return {IMM}
             if name in self.m.funcs and self.m.funcs[name].cls is None:
                 return self.apply_call(e, name, None, argrefs, kwrefs)
+            if name in ('copy', 'deepcopy') and argrefs and name not in self.env:      # from copy import copy
+                return self.ev(ast.copy_location(ast.Call(func=ast.Attribute(value=ast.Name(id='copy', ctx=ast.Load()), attr=name, ctx=ast.Load()),
+                                                          args=e.args, keywords=e.keywords), e))
             return {IMM}
+        if isinstance(f, ast.Attribute) and isinstance(f.value, ast.Name) and f.value.id == 'copy' and f.value.id not in self.env \
+                and name in ('copy', 'deepcopy') and argrefs:
+            # copy.copy(x) / copy.deepcopy(x): a class whose __copy__ / __deepcopy__ hands back self makes the "copy" the object itself
+            hook = '__copy__' if name == 'copy' else '__deepcopy__'
+            for c in self.m.classes.values():
+                h = c.methods.get(hook)
+                if h is not None and any(isinstance(n, ast.Return) and n.value is not None and norm(n.value) == h.self_name for n in h.walk()):
+                    return set(argrefs[0])
+            if name == 'copy':
+                return self.fresh(e, 'list', self.elem_of(argrefs[0])) | {r for r in argrefs[0] if r == IMM}
+            return self.fresh(e, 'list')
         if isinstance(f, ast.Attribute):
             # static / class-qualified calls
             if isinstance(f.value, ast.Name) and (f.value.id == '__class__' or f.value.id in self.m.classes) and f.value.id not in self.env:
